@@ -119,6 +119,10 @@ func Drive(id, tier string, seed int64, root, exe string) int {
 				cmd = exec.CommandContext(ctx, "sh", append([]string{"-c", sh, exe}, args...)...)
 			}
 			cmd.Env = append(os.Environ(), "GOTRACEBACK=all", "VERIF_WORKER=1")
+			if p.Race {
+				// exploration mode: do not stop at the first report, collect them in per-process log files
+				cmd.Env = append(cmd.Env, fmt.Sprintf("GORACE=halt_on_error=0 log_path=%s", filepath.Join(out, fmt.Sprintf("race.%d", s))))
+			}
 			so, _ := os.Create(filepath.Join(out, fmt.Sprintf("stdout.%d", s)))
 			se, _ := os.Create(filepath.Join(out, fmt.Sprintf("stderr.%d", s)))
 			cmd.Stdout, cmd.Stderr = so, se
@@ -245,6 +249,51 @@ func Drive(id, tier string, seed int64, root, exe string) int {
 		total.Counters["shards_incomplete"]++
 	}
 	total.Nontrivial += int64(len(hashes))
+
+	// race detector reports (counted from the log files, not from exit codes)
+	if p.Race {
+		files, _ := filepath.Glob(filepath.Join(out, "race.*"))
+		dedup := map[string]string{}
+		nrep := 0
+		for _, f := range files {
+			b, err := os.ReadFile(f)
+			if err != nil {
+				continue
+			}
+			for _, blk := range strings.Split(string(b), "==================") {
+				if !strings.Contains(blk, "WARNING: DATA RACE") {
+					continue
+				}
+				nrep++
+				// de-duplicate by the function names of the two top frames
+				var tops []string
+				for _, ln := range strings.Split(blk, "\n") {
+					t := strings.TrimSpace(ln)
+					if strings.HasPrefix(t, "github.com/") || strings.HasPrefix(t, "verif/") || strings.HasPrefix(t, "main.") {
+						if i := strings.Index(t, "("); i > 0 {
+							t = t[:i]
+						}
+						tops = append(tops, t)
+						if len(tops) == 4 {
+							break
+						}
+					}
+				}
+				dedup[strings.Join(tops, " | ")] = blk
+			}
+		}
+		total.Counters["race_reports"] = int64(nrep)
+		total.Counters["race_reports_distinct"] = int64(len(dedup))
+		total.Counters["race_log_files"] = int64(len(files))
+		for key, blk := range dedup {
+			cb, _ := json.Marshal(map[string]string{"kind": "race-report", "frames": key, "report": Short(blk, 6000)})
+			if strings.Contains(blk, "/repo/") {
+				viols = append(viols, Violation{What: "DATA RACE reported by the Go race detector in interpreter code: " + key, Case: cb})
+			} else {
+				broken = "race report with both stacks outside /repo (harness race): " + key
+			}
+		}
+	}
 
 	// 4. replay files + verdict lines
 	os.MkdirAll(filepath.Join(root, "replays"), 0o755)
